@@ -4,8 +4,8 @@ CONSTANTS
   WCs = {TRUE}
   Batches = {1}
   MaxEpoch = 2
-  Ops = {"Put", "Delete", "GC", "Flush", "Epoch", "MarkDef", "MarkRed"}
-  Faults = {"crash", "flushfail"}
+  Ops = {"Put", "Delete", "GC", "Flush", "Epoch", "MarkRed"}
+  Faults = {"crash"}
   Modes = {}
   BugH9 = TRUE
   BugH10 = TRUE
